@@ -121,17 +121,25 @@ def histories(case):
       nc = dict(case, ops=[list(o) for o in seq])
       s = fedjax.client_samplers.UniformGetClientSampler(fd, k, seed)
       rnd = 0
+      kept = []
       for o in seq:
         if o[0] == 'set':
           s.set_round_num(o[1])
           rnd = o[1]
         else:
-          got = observe(s.sample())
+          cohort = s.sample()
+          kept.append((rnd, cohort))
+          got = observe(cohort)
           require(got == T[rnd], 'sample() at round %d after history %s differs from a fresh sampler seated at that '
                   'round' % (rnd, [list(x) for x in seq]), T[rnd], got, case=nc)
           rnd += 1
         trans += 1
         states.add(rnd)
+      # cohorts handed out earlier stay what they were: looked at again after the later operations of the history
+      for r0, cohort in kept[:-1]:
+        again = observe(cohort)
+        require(again == T[r0], 'the cohort returned for round %d changed after later operations on the sampler (history %s)'
+                % (r0, [list(x) for x in seq]), T[r0], again, case=nc)
       evals += 1
     if impl == 'sql':
       fd._connection.close()
@@ -165,6 +173,30 @@ def streaming(case):
                 'permutation' % p, case=nc)
       allkeys = [tuple(o[2]) for obs in rounds for o in obs]
       require(len(set(allkeys)) == len(allkeys), 'streaming: keys repeat across rounds', case=nc)
+      # the same stream while the dataset object serves other requests between the rounds (a periodic evaluation, a
+      # second sampler) and while a second streaming sampler over the same dataset is alive
+      dist = fedjax.client_samplers.UniformShuffledClientSampler(fd.shuffled_clients(buf, sseed), k)
+      other = fedjax.client_samplers.UniformShuffledClientSampler(fd.shuffled_clients(buf, sseed), k, start_round_num=2)
+      getter = fedjax.client_samplers.UniformGetClientSampler(fd, min(k, n), 0)
+      kept = []
+      for r in range(len(rounds) - 2):
+        cohort = dist.sample()
+        kept.append(cohort)
+        require(observe(cohort) == rounds[r], 'streaming round %d differs when the dataset object is used between the rounds'
+                % r, rounds[r], observe(cohort), case=nc)
+        fd.num_clients()
+        ids_now = list(fd.client_ids())
+        fd.get_client(ids_now[r % n])
+        fd.client_size(ids_now[-1])
+        getter.sample()
+        next(iter(fd.clients()))
+        got_o = observe(other.sample())
+        require(got_o == rounds[r + 2], 'a second streaming sampler (started at round 2) alive next to the first one differs '
+                'at its sample %d' % r, rounds[r + 2], got_o, case=nc)
+        trans += 2
+      for r, cohort in enumerate(kept):
+        require(observe(cohort) == rounds[r], 'the streaming cohort returned for round %d changed after later samples' % r,
+                rounds[r], observe(cohort), case=nc)
       for r in range(0, case['max_start'] + 1):
         s = fedjax.client_samplers.UniformShuffledClientSampler(fd.shuffled_clients(buf, sseed), k, start_round_num=r)
         for j in range(3):
@@ -181,8 +213,50 @@ def streaming(case):
           'outcome': [name, impl, k]}
 
 
-SUBS = {'histories': histories, 'streaming': streaming}
-TIMEOUTS = {'histories': 900, 'streaming': 300}
+def sample_table(arg):
+  """Fresh-sampler answers for rounds 0..MAX_ROUND and the first streaming rounds (parent and child interpreters)."""
+  import fedjax
+  tmp = tempfile.mkdtemp(prefix='c13o_')
+  out = {}
+  try:
+    for impl in arg['impls']:
+      fd, _ = build_fd(arg['dataset'], impl, tmp)
+      for k in arg['ks']:
+        T = []
+        for r in range(0, MAX_ROUND + 1):
+          s = fedjax.client_samplers.UniformGetClientSampler(fd, k, arg['seed'], start_round_num=r)
+          T.append([[o[0].hex(), o[1], o[2]] for o in observe(s.sample())])
+        st = fedjax.client_samplers.UniformShuffledClientSampler(fd.shuffled_clients(2, arg['seed']), k)
+        S = [[[o[0].hex(), o[1], o[2]] for o in observe(st.sample())] for _ in range(4)]
+        out['%s/%d' % (impl, k)] = {'get': T, 'stream': S}
+      if impl == 'sql':
+        fd._connection.close()
+  finally:
+    shutil.rmtree(tmp, ignore_errors=True)
+  return out
+
+
+def other_process(case):
+  """(seed, round) -> cohort is the same function in another interpreter process (a restart IS another process; its
+  str/bytes hash salt differs). Every listed PYTHONHASHSEED runs."""
+  from mc import child
+  arg = {'dataset': case['dataset'], 'impls': case['impls'], 'ks': case['ks'], 'seed': case['seed']}
+  here = sample_table(arg)
+  evals = 0
+  for hs in case['hashseeds']:
+    there = child.call('mc.checks.c13_client_sampling', 'sample_table', arg, hs)
+    for key in here:
+      for kind in ('get', 'stream'):
+        require(here[key][kind] == there[key][kind], '%s sampler (%s): the cohorts of the same (seed, round) differ between '
+                'two interpreter processes (PYTHONHASHSEED=%s)' % (kind, key, hs), here[key][kind][:2], there[key][kind][:2],
+                case=dict(case, hashseeds=[hs]))
+        evals += 1
+  return {'evals': evals, 'states': evals, 'transitions': evals * (MAX_ROUND + 1), 'traces': evals, 'nontrivial': True,
+          'outcome': [case['dataset'], case['seed']]}
+
+
+SUBS = {'histories': histories, 'streaming': streaming, 'other_process': other_process}
+TIMEOUTS = {'histories': 900, 'streaming': 300, 'other_process': 1200}
 
 
 def plan(ctx):
@@ -209,3 +283,6 @@ def plan(ctx):
          'max_start': 4}
         for name, ids in DATASETS.items() for impl in ('mem', 'sql') for k in range(1, len(ids) + 1)]
   ctx.pmap('streaming', sc, chunk=2)
+  ctx.pmap('other_process', [{'dataset': name, 'impls': ['mem', 'sql'], 'ks': [1, len(ids) - 1, len(ids)], 'seed': sd + ctx.seed,
+                              'hashseeds': [hs]} for name, ids in DATASETS.items() for sd in (0, 7)
+                             for hs in ((1, 2, 3, 12345) if th else (1, 2))], chunk=1)
